@@ -120,6 +120,77 @@ def run_hist_plan(report, prop, plan, accept=None):
         parse_engine_output(res, report, prop, meta, accept_props=accept or {prop})
 
 
+def fuzz_stage(report, prop, cfgs, runs, seed, monitors=None, fault=0, fmask="all", focus="general", also=None, also_prefix="", procs=2, accept=None):
+    """Coverage-guided exploration: libFuzzer mutates byte strings that feed the history generator (two bytes per draw)
+    and keeps the inputs that reach new edges of the header or of the monitors.  One process per (config, k); every
+    process has its own scratch corpus (removed afterwards).  A violation makes the driver abort, libFuzzer stores the
+    input, and the stored input becomes the replay."""
+    import hashlib, shutil, tempfile
+    names = list(cfgs)
+    if "coverage-guided" not in report.rule:
+        report.rule += ("; the thorough tier adds a coverage-guided stage: libFuzzer mutates byte strings that feed the same history generator, keeps inputs reaching new "
+                        "edges of the header/monitors (%d executions per process, %d processes%s)" % (runs, procs * len(names), ", fault enumeration on the last op of each history" if fault else ""))
+    specs = [{"src": "hist.cpp", "flavour": "clang-fuzz", "defines": dict(cfgs[k], SVMON_FUZZ=None), "name": "histfuzz"} for k in names]
+    t0 = time.time()
+    bins = build_many(specs)
+    log("[%s] built %d fuzz drivers in %.1fs" % (prop, len(specs), time.time() - t0))
+    os.makedirs(svlib.CACHE, exist_ok=True)
+    work = tempfile.mkdtemp(prefix="fuzz.", dir=svlib.CACHE)
+    cmds, metas = [], []
+    try:
+        for k, b in zip(names, bins):
+            if isinstance(b, BuildError):
+                report.add_inconclusive("fuzz driver build failed for %s: %s" % (k, b.diag[-1500:]))
+                continue
+            for j in range(procs):
+                d = os.path.join(work, "%s.%d" % (k, j))
+                os.makedirs(os.path.join(d, "corpus"))
+                env = {"SVMON_FUZZ_MONITORS": monitors or prop, "SVMON_FUZZ_FAULT": str(fault), "SVMON_FUZZ_FMASK": fmask, "SVMON_FUZZ_FOCUS": focus}
+                if also:
+                    env["SVMON_FUZZ_ALSO"] = also
+                    env["SVMON_FUZZ_ALSO_PREFIX"] = also_prefix
+                fz = [b, "-runs=%d" % runs, "-max_len=256", "-len_control=20", "-seed=%d" % (seed * 1000 + 17 * j + 1), "-detect_leaks=0", "-timeout=300", "-rss_limit_mb=4096",
+                      "-artifact_prefix=" + d + "/", "-print_final_stats=1", os.path.join(d, "corpus")]
+                cmds.append(["env"] + ["%s=%s" % kv for kv in sorted(env.items())] + fz)
+                metas.append({"engine": "fuzz", "src": "hist.cpp", "flavour": "clang-fuzz", "defines": dict(cfgs[k], SVMON_FUZZ=None), "env": env,
+                              "config": cfg_name(cfgs[k]) + "@fuzz", "config_class": cfg_class(cfgs[k]), "mode": "fuzz", "dir": d})
+        t0 = time.time()
+        results = run_many(cmds, timeout=3000)
+        log("[%s] ran %d fuzz processes in %.1fs" % (prop, len(cmds), time.time() - t0))
+        cnt = report.coverage["counters"]
+        for res, meta in zip(results, metas):
+            d = meta.pop("dir")
+            arts = sorted(f for f in os.listdir(d) if f.split("-")[0] in ("crash", "timeout", "oom", "leak", "slow"))
+            rb = dict(meta)
+            if arts:
+                os.makedirs(svlib.REPLAYS, exist_ok=True)
+                data = open(os.path.join(d, arts[0]), "rb").read()
+                dst = os.path.join(svlib.REPLAYS, "fuzz-%s-%s.bin" % (prop, hashlib.sha256(data).hexdigest()[:16]))
+                with open(dst, "wb") as f:
+                    f.write(data)
+                rb["artifact"] = dst
+            parse_engine_output(dict(res, rc=0), report, prop, dict(rb, expect_done=(res["rc"] == 0)), accept_props=accept or {prop})
+            for line in res["err"].splitlines():
+                m = re.match(r"stat::(number_of_executed_units|new_units_added):\s+(\d+)", line)
+                if m:
+                    cnt["fuzz-" + m.group(1)] = cnt.get("fuzz-" + m.group(1), 0) + int(m.group(2))
+            m = re.findall(r"cov: (\d+) ft: (\d+)", res["err"])
+            if m:
+                cnt["fuzz-max-edges"] = max(cnt.get("fuzz-max-edges", 0), int(m[-1][0]))
+                cnt["fuzz-max-features"] = max(cnt.get("fuzz-max-features", 0), int(m[-1][1]))
+            if res["rc"] != 0 and not res["timeout"] and '"type":"violation"' not in res["out"]:
+                # the process died without a monitor record: sanitizer report, std::terminate, hang or out-of-memory inside the library
+                kind = ("asan" if "ERROR: AddressSanitizer" in res["err"] else "ubsan" if "runtime error:" in res["err"] else
+                        "timeout" if "ERROR: libFuzzer: timeout" in res["err"] else "oom" if "out-of-memory" in res["err"] else
+                        "terminate" if "terminate called" in res["err"] or "deadly signal" in res["err"] else "exit%s" % res["rc"])
+                report.add_violation("fuzz|%s|death.%s|%s" % (prop, kind, meta["config_class"]),
+                                     "fuzz driver died (%s) [%s]%s" % (kind, meta["config"], svlib.san_summary(res["err"][-200000:])), rb)
+        if cmds and cnt.get("fuzz-number_of_executed_units", 0) < runs * len(cmds) // 2 and not report.violations:
+            report.add_inconclusive("coverage-guided stage executed %d inputs, expected %d" % (cnt.get("fuzz-number_of_executed_units", 0), runs * len(cmds)))
+    finally:
+        shutil.rmtree(work, ignore_errors=True)
+
+
 def shards(c, flavour, base_args, n, name=None):
     return [hist_run(c, flavour, list(base_args) + ["--shard", i, "--nshards", n], name) for i in range(n)]
 
@@ -159,6 +230,8 @@ def check_C01(tier, seed):
             plan.append(hist_run(Q[k], "asan-rel", ["--mode", "random", "--cases", 20000, "--len", 60, "--seed", seed + 1] + mon))
             plan.append(hist_run(Q[k], "clang-asan", ["--mode", "random", "--cases", 8000, "--len", 60, "--seed", seed + 2] + mon))
     run_hist_plan(rp, "C01", plan, accept={"C01", "C16"})
+    if tier != "quick":
+        fuzz_stage(rp, "C01", {k: Q[k] for k in ("int-std", "tnx-l000", "tthrow-l011", "tmo-l111", "tco-l010", "tsw-l110", "tnx-l101ae", "tas-l000")}, 150000, seed)
     if tier != "quick":
         # valgrind memcheck on the uninstrumented build: use of uninitialised element values, which ASan cannot see
         vspecs = [{"src": "hist.cpp", "flavour": "plain-dbg", "defines": Q[k], "name": "hist"} for k in ("int-l111", "tnx-l000")]
@@ -201,6 +274,8 @@ def check_C02(tier, seed):
         for k in ("tthrow-l000", "tmot-l001", "tco-l010", "tthrow-l011", "tsw-l110"):
             plan += shards(Q[k], "asan-dbg-o1", ["--mode", "fault", "--level", 1] + mon, 4)
     run_hist_plan(rp, "C02", plan, accept={"C02", "C06"} if False else {"C02"})
+    if tier != "quick":
+        fuzz_stage(rp, "C02", {k: Q[k] for k in ("int-std", "tnx-l000", "tthrow-l011", "tmo-l111", "tco-l010", "tsw-l110", "tnx-l101ae", "tas-l000")}, 60000, seed, fault=2)
     return rp.finish()
 
 
@@ -230,6 +305,8 @@ def check_C03(tier, seed):
         for k in ("tthrow-l000", "tmot-l001", "tco-l010", "tthrow-l011", "tsw-l110", "tnx-l000c"):
             plan += shards(Q[k], "asan-dbg-o1", ["--mode", "fault", "--level", 1] + mon, 4)
     run_hist_plan(rp, "C03", plan)
+    if tier != "quick":
+        fuzz_stage(rp, "C03", {k: Q[k] for k in ("tnx-l000", "tthrow-l011", "tmo-l111", "tco-l010", "tsw-l110", "tnx-l101ae", "tas-l000", "tmot-l001")}, 60000, seed, fault=2)
     return rp.finish()
 
 
@@ -258,6 +335,8 @@ def check_C04(tier, seed):
         for k in ("tthrow-l000", "tmot-l001", "tco-l010", "tthrow-l011", "tthrow-std"):
             plan += shards(Q[k], "asan-dbg-o1", ["--mode", "fault", "--level", 1] + mon, 4)
     run_hist_plan(rp, "C04", plan)
+    if tier != "quick":
+        fuzz_stage(rp, "C04", {k: Q[k] for k in ("tnx-l000", "tthrow-l011", "tmo-l111", "tco-l010", "tsw-l110", "tnx-l101ae", "tnx-l101", "tthrow-std")}, 60000, seed, fault=2, focus="alloc")
     floor(rp, "c04.noalloc-rule-checked", 1000, "ops checked against the no-allocate rule")
     return rp.finish()
 
@@ -284,6 +363,8 @@ def check_C05(tier, seed):
         for k in ("tthrow-l000", "tco-l010"):
             plan += shards(Q[k], "clang-asan", ["--mode", "fault", "--level", 1] + mon, 4)
     run_hist_plan(rp, "C05", plan)
+    if tier != "quick":
+        fuzz_stage(rp, "C05", {k: Q[k] for k in ("tnx-l000", "tthrow-l000", "tco-l010", "tmo-l111", "tmot-l001", "tthrow-std", "tthrow-l011", "tnx-l000c")}, 25000, seed, fault=1, fmask="c05")
     floor(rp, "faults-fired", 500, "injected faults that reached the caller")
     floor(rp, "c05.strong-cases", 300, "strong-guarantee snapshots compared")
     rp.exhaustive = True
@@ -310,6 +391,8 @@ def check_C06(tier, seed):
             plan += shards(Q[k], "asan-dbg-o1", ["--mode", "fault", "--level", 1, "--pairs", 1] + mon, 6)
             plan.append(hist_run(Q[k], "asan-dbg-o1", ["--mode", "rfault", "--cases", 3000, "--len", 12, "--seed", seed, "--pairs", 1] + mon))
     run_hist_plan(rp, "C06", plan)
+    if tier != "quick":
+        fuzz_stage(rp, "C06", {k: Q[k] for k in ("tnx-l000", "tthrow-l000", "tco-l010", "tmo-l111", "tmot-l001", "tsw-l110", "tthrow-l011", "tas-l000")}, 20000, seed, fault=1)
     floor(rp, "faults-fired", 1000, "injected faults")
     floor(rp, "c06.followups", 500, "reuse scripts after a throw")
     rp.exhaustive = True
@@ -338,6 +421,8 @@ def check_C07(tier, seed):
             plan += shards(c, "asan-dbg-o1", ["--mode", "sweep", "--level", 1, "--select", "binary"] + mon, 2, k)
             plan.append(hist_run(c, "asan-dbg-o1", ["--mode", "random", "--focus", "alloc", "--cases", 6000, "--len", 60, "--seed", seed] + mon, k))
     run_hist_plan(rp, "C07", plan)
+    if tier != "quick":
+        fuzz_stage(rp, "C07", {k: Q[k] for k in ("tnx-l000", "tmo-l111", "tco-l010", "tsw-l110", "tmot-l001", "tnx-l101", "tthrow-l011", "tnx-l101ae")}, 100000, seed, focus="alloc")
     return rp.finish()
 
 
@@ -359,6 +444,8 @@ def check_C09(tier, seed):
             plan += shards(c, "asan-dbg-o1", ["--mode", "sweep", "--level", 1, "--select", "binary"] + mon, 2, k)
             plan.append(hist_run(c, "asan-dbg-o1", ["--mode", "random", "--focus", "alloc", "--cases", 6000, "--len", 60, "--seed", seed] + mon, k))
     run_hist_plan(rp, "C09", plan)
+    if tier != "quick":
+        fuzz_stage(rp, "C09", {k: Q[k] for k in ("tnx-l000", "tmo-l111", "tco-l010", "tthrow-std", "tnx-l101ae", "tthrow-l011", "int-std", "int-l111")}, 100000, seed, focus="alloc")
     floor(rp, "c09.steals", 200, "permitted steals observed")
     floor(rp, "c09.elementwise", 200, "element-wise transfers observed")
     floor(rp, "c09.swap-both-heap", 20, "swaps of two heap buffers")
@@ -384,6 +471,8 @@ def check_C10(tier, seed):
             plan += shards(c, "asan-dbg-o1", ["--mode", "sweep", "--level", 1] + mon, 2, k)
             plan.append(hist_run(c, "asan-dbg-o1", ["--mode", "random", "--focus", "grow", "--cases", 6000, "--len", 60, "--seed", seed] + mon, k))
     run_hist_plan(rp, "C10", plan)
+    if tier != "quick":
+        fuzz_stage(rp, "C10", {k: Q[k] for k in ("tnx-l000", "tthrow-l000", "int-std", "tco-l010", "tmo-l111", "tnx-l101", "int-l111", "tnx-l000c")}, 100000, seed, focus="grow")
     floor(rp, "c10.fitting-ops", 1000, "fitting ops checked")
     floor(rp, "c10.reallocating-ops", 300, "reallocating ops checked")
     floor(rp, "c10.reserve-noop", 30, "no-op reserves checked")
@@ -409,6 +498,8 @@ def check_C11(tier, seed):
         for k in ("int-std", "tthrow-l000"):
             plan += shards(Q[k], "clang-asan", ["--mode", "sweep", "--level", 1, "--select", "alias"] + mon, 4)
     run_hist_plan(rp, "C11", plan)
+    if tier != "quick":
+        fuzz_stage(rp, "C11", {k: Q[k] for k in ("int-std", "tnx-l000", "tthrow-l000", "tco-l010", "tthrow-std", "tsw-l110", "tnx-l000c", "tnx-l101ae")}, 100000, seed, focus="alias", also="C11", also_prefix="registry.")
     rp.exhaustive = True
     rp.extra["exhaustive_note"] = "all element indices i x all positions for the enumerated states; counts from the stated candidate set"
     return rp.finish()
@@ -428,6 +519,8 @@ def check_C15(tier, seed):
         plan += shards(Q[k], fl, ["--mode", "sweep", "--level", lvl, "--select", "range"] + mon, 2 if tier == "quick" else 4)
         plan.append(hist_run(Q[k], fl, ["--mode", "random", "--focus", "range", "--cases", 500 if tier == "quick" else 8000, "--len", 60, "--seed", seed] + mon))
     run_hist_plan(rp, "C15", plan)
+    if tier != "quick":
+        fuzz_stage(rp, "C15", {k: Q[k] for k in ("int-std", "tnx-l000", "tthrow-l000", "tmo-l111", "tco-l010", "tthrow-l011", "tas-l000", "tnx-l101ae")}, 100000, seed, focus="range")
     floor(rp, "c15.stream-ranges", 500, "single-pass ranges fully consumed")
     return rp.finish()
 
@@ -1090,6 +1183,17 @@ def replay(path):
         case = str(r.get("case", "")).split(":")[-1]
         cmd = [b] + args + ["--only-case", case, "--trace", "--nofork"]
         res = svlib.run_proc(cmd, timeout=600)
+        sys.stdout.write(res["out"][-20000:])
+        sys.stderr.write(res["err"][-8000:])
+        bad = res["rc"] != 0 or '"type":"violation"' in res["out"]
+        print("REPLAY %s: %s" % (path, "violation reproduced" if bad else "no violation"))
+        return 1 if bad else 0
+    if r.get("engine") == "fuzz":
+        b = svlib.build("hist.cpp", flavour=r["flavour"], defines=r["defines"], name="histfuzz")
+        if not r.get("artifact") or not os.path.exists(r["artifact"]):
+            print("replay: the stored fuzz input %s is missing" % r.get("artifact"))
+            return 2
+        res = svlib.run_proc([b, "-detect_leaks=0", r["artifact"]], timeout=900, env=dict(r.get("env", {}), SVMON_FUZZ_TRACE="1"))
         sys.stdout.write(res["out"][-20000:])
         sys.stderr.write(res["err"][-8000:])
         bad = res["rc"] != 0 or '"type":"violation"' in res["out"]
